@@ -452,6 +452,35 @@ theorem not_a_queue_task_merges_nothing (qs : QSet) (t : Task) (stop : Option (T
 example : QSet.get [(1, [{ id := 5, hook := 1 }, { id := 6, hook := 1 }])]
     ({ id := 9, hook := 1, queue := 0 } : Task).queue = none := by decide
 
+/-- **`webhook_run_takes_nothing`**: the hook run the operator makes for an admission / conversion
+request (`webhookRun`: the task the event closure builds, handed to `taskHandleHookRun`) is executed
+with exactly the binding contexts of the request, and the run takes no task out of any queue — the
+queue set is the one it found, or that set after what other goroutines did to it meanwhile —
+whatever the queues hold (tasks of the same hook at their heads included), whatever the hook
+version, the stop rule, and whatever `BindingExecutionInfo.QueueName` says. Hypothesis: no queue of
+the set is named by the empty string. -/
+theorem webhook_run_takes_nothing (stopOf : Task → Option (Task → Bool))
+    (version emptyName id hook btype : Nat) (info : ExecInfo) (qs : QSet) (env : QSet → QSet)
+    (h : qs.get emptyName = none) :
+    (webhookRun stopOf version emptyName id hook btype info qs env).1
+        = some (webhookTask emptyName id hook btype info) ∧
+    (webhookTask emptyName id hook btype info).ctxs = info.ctxs ∧
+    ((webhookRun stopOf version emptyName id hook btype info qs env).2 = qs ∨
+     (webhookRun stopOf version emptyName id hook btype info qs env).2 = env qs) := by
+  have hq : (webhookTask emptyName id hook btype info).queue = emptyName := rfl
+  refine ⟨?_, rfl, ?_⟩ <;>
+    (unfold webhookRun prepareRun
+     split
+     · split
+       · simp [combineGo, hq, h]
+       · simp
+     · simp)
+
+example : (webhookRun (fun _ => none) 1 0 9 1 5 { ctxs := [⟨7, 9, 0⟩], queueName := 1 }
+      [(1, [{ id := 5, hook := 1 }, { id := 6, hook := 1 }])] id)
+    = (some (webhookTask 0 9 1 5 { ctxs := [⟨7, 9, 0⟩], queueName := 1 }),
+       [(1, [{ id := 5, hook := 1 }, { id := 6, hook := 1 }])]) := by decide
+
 /-! ### Tie T4: the compaction loop of the model is the code
 
 `ShellOp.Trans.compactInt` / `compactTwin` are regenerated on every run from the index loop
